@@ -17,7 +17,7 @@ layer does not see.
 """
 import numpy as np
 
-from .core import exc_sig
+from .core import exc_sig, quarantined
 from . import seams, typegen, model as M, objsim
 from .objsim import pick_buf, ObjSim, ObjWorld, Step, GenSource, Skip, Obj, read_handle, typereg
 from .layout import DecodeError, c_indices
@@ -315,6 +315,12 @@ class HGenSource(GenSource):
             if op is not None:
                 self.n += 1
                 return op
+        pend = getattr(self, "pending", None)
+        if pend and self.n < self.sw["steps"]:
+            # scripted continuation of an interesting prefix (a reference to a nested part was made:
+            # drop or replace it, then try to move the part)
+            self.n += 1
+            return pend.pop(0)
         return super().next(w)
 
     def h_construct(self, w):
@@ -417,6 +423,11 @@ class HGenSource(GenSource):
         if k == "struct":
             if typegen.has_refs(w.schema, t):
                 return None
+            if rng.random() < 0.3 and w.schema[t].get("hybrid") and not getattr(self, "pending", None):
+                sc = self._resplit_scenario(w, o, p, t, n)
+                if sc:
+                    self.pending = sc[1:]
+                    return sc[0]
             cands = [x for x in w.live_objs(t) if x.k != o.k]
             if cands and rng.random() < 0.6:
                 return {"op": "h_set", "obj": o.k, "path": p, "value": {"obj": rng.choice(cands).k}}
@@ -426,23 +437,73 @@ class HGenSource(GenSource):
             return {"op": "h_set", "obj": o.k, "path": p, "value": value}
         if k == "ref":
             r = rng.random()
-            if r < 0.2:
+            if r < 0.15:
                 return {"op": "h_set", "obj": o.k, "path": p, "value": None}
             cands = w.live_objs(ty["to"])
             same = [x for x in cands if x.buf is o.buf and x.k != o.k]
             other = [x for x in cands if x.buf is not o.buf]
-            if r < 0.12:
+            if r < 0.3:
                 # a part nested (by value) in another object of the same buffer as referent
-                for x in [y for y in self.hlive(w) if y.buf is o.buf]:
+                for x in [y for y in self.hlive(w) if y.buf is o.buf and y.k != o.k]:
                     parts = [pp for pp, pt2, pn in M.enum_paths(w.schema, x.t, x.node, through_refs=False) if pp and pt2 == ty["to"] and isinstance(pp[-1], str)]
                     if parts:
-                        return {"op": "h_set", "obj": o.k, "path": p, "value": {"part": [x.k, rng.choice(parts)]}}
+                        part = rng.choice(parts)
+                        if rng.random() < 0.6:
+                            # ... and later the reference is dropped or rebound and the part is asked to move
+                            # (it is still nested: the move must still be refused)
+                            drop = None if rng.random() < 0.5 or not same else {"obj": rng.choice(same).k}
+                            self.pending = [
+                                {"op": "h_set", "obj": o.k, "path": p, "value": drop},
+                                {"op": "h_move", "obj": x.k, "part": part, "place": {"buf": pick_buf(w, rng), "how": "default"}},
+                            ]
+                        return {"op": "h_set", "obj": o.k, "path": p, "value": {"part": [x.k, part]}}
             if same and r < 0.6:
                 return {"op": "h_set", "obj": o.k, "path": p, "value": {"obj": rng.choice(same).k}}
             if other and r < 0.75:
                 return {"op": "h_set", "obj": o.k, "path": p, "value": {"obj": rng.choice(other).k}}
             return {"op": "h_set", "obj": o.k, "path": p, "value": self._full_dict(w, self.vg(w, o.bufid), ty["to"], o.bufid)}
         return None
+
+    def _resplit_scenario(self, w, o, p, t, n):
+        """[copy of the nested part,] a new object of the part's class with the same total size and
+        another split of its dynamic arrays, assigned to the nested field dressed or as raw xobject:
+        the library byte-copies it, every cached layout fact about the part has to follow."""
+        rng = self.rng
+        ty = w.schema[t]
+        dyn = []
+        for f in ty["fields"]:
+            ft = w.schema[f[1]]
+            if ft["k"] == "array" and len(ft["shape"]) == 1 and ft["shape"][0] is None and w.schema[ft["item"]]["k"] == "sc":
+                dyn.append((f[0], f[1], np.dtype(typegen.SC_DTYPE[w.schema[ft["item"]]["t"]]).itemsize))
+        pairs = [(a, b) for a in dyn for b in dyn if a[0] < b[0] and a[2] == b[2] and len(n.f[a[0]].items) != len(n.f[b[0]].items)]
+        if not pairs or o.bufid is None:
+            return None
+        a, b = rng.choice(pairs)
+        la, lb = len(n.f[a[0]].items), len(n.f[b[0]].items)
+        if rng.random() < 0.4 and abs(la - lb) >= 2:
+            # move part of the difference only (for 3 fields: lengths that make old headers meet new offsets)
+            k = rng.randrange(1, abs(la - lb))
+            na, nb = (la - k, lb + k) if la > lb else (la + k, lb - k)
+        else:
+            na, nb = lb, la
+        d = {}
+        for f in ty["fields"]:
+            if f[0] in (a[0], b[0]):
+                ln = na if f[0] == a[0] else nb
+                it = w.schema[w.schema[f[1]]["item"]]["t"]
+                d[f[0]] = {"l": [M.gen_scalar(rng, it) for _ in range(ln)], "shape": [ln]}
+            else:
+                v = self._same_shape_value(w, f[1], n.f[f[0]])
+                if v is None:
+                    return None
+                d[f[0]] = v
+        nid = self.new_id()
+        ops = []
+        if rng.random() < 0.6:
+            ops.append({"op": "h_copy", "obj": o.k, "place": rng.choice([None, {"buf": o.bufid, "how": "default"}, {"ctx": 0}]), "id": self.new_id(), "part": p})
+        ops.append({"op": "h_construct", "type": t, "value": {"d": d}, "place": {"buf": o.bufid if rng.random() < 0.7 else pick_buf(w, rng), "how": "default"}, "names": "xo", "id": nid})
+        ops.append({"op": "h_set", "obj": o.k, "path": p, "value": {"obj": nid}, "raw": rng.random() < 0.5})
+        return ops
 
     def h_copy(self, w):
         live = self.hlive(w)
@@ -731,7 +792,9 @@ class HStep(Step):
                     same_size = self._part_size(o, path) == self._extent(src) and self._extent(src) > 0
                     if not same_layout and not same_size:
                         raise Skip()  # neither an in-place fit nor an equal-size replacement: may legitimately be refused
-                    val = src.dressed if (getattr(src, "dressed", None) is not None and not raw_holder) else src.handle()
+                    val = src.dressed if (getattr(src, "dressed", None) is not None and not raw_holder and not op.get("raw")) else src.handle()
+                    if op.get("raw"):
+                        self.res.probe("nested_assignment_of_raw_xobject")
                     vnode = M.copy_node(schema, t, src.node, False)
                     if not same_layout:
                         # equal total size, other split of the dynamic parts: the library byte-copies the
@@ -748,7 +811,14 @@ class HStep(Step):
                 action = lambda: setattr(holder, name, val)  # noqa: E731
                 new = node
                 if replace_whole:
-                    post = lambda: M.store_at(parent, key, vnode)  # noqa: E731
+                    if self._inner_referenced(t, node):
+                        raise Skip()
+                    if quarantined("set.whole_update_via_other_handle") and self._inner_referenced(t, node, itself=True):
+                        # known finding C06-stale-handle-after-whole-update in hybrid dress: the dressed
+                        # referent kept by the referring object is another live handle of the replaced part
+                        raise Skip()
+                    # (in place: references to the part itself go on denoting it, with its new content)
+                    post = lambda: setattr(node, "f", vnode.f)  # noqa: E731
                 else:
                     post = lambda: M.assign_into(schema, t, node, vnode)  # noqa: E731
                 if form == "obj" and any(schema[f[1]]["k"] == "struct" for f in schema[t]["fields"]):
